@@ -23,7 +23,7 @@ use reed_solomon_simd::{ReedSolomonDecoder, ReedSolomonEncoder};
 use crate::hooks;
 use crate::util::{hash_bytes, jobj, jstr, mix, Agg, CaseOut, Rng, RunCfg};
 
-pub const N_ROLES: usize = 12;
+pub const N_ROLES: usize = 13;
 const ROLE_NAMES: [&str; N_ROLES] = [
     "naive-encode",
     "nosimd-roundtrip",
@@ -37,6 +37,7 @@ const ROLE_NAMES: [&str; N_ROLES] = [
     "handover-encoder",
     "handover-decoder",
     "lowrate-nosimd-roundtrip",
+    "nested-oneshot",
 ];
 
 // table ids as in the hook module
@@ -298,6 +299,46 @@ pub fn role(kind: usize, seed: u64, record_use: bool) -> u64 {
         11 => {
             let (kk, rr) = (k.min(r), k.max(r));
             roundtrip::<NoSimd, LowRateEncoder<NoSimd>, LowRateDecoder<NoSimd>>(&mut rng, NoSimd::new, kk, rr, size)
+        }
+        12 => {
+            // One-shot calls whose input iterators are lazy and themselves
+            // use the library: every shard of the outer encode comes out of
+            // an inner one-shot encode at the moment the outer call asks for
+            // it, and the recovery shards fed to the outer decode come out of
+            // an inner decode. (Nothing a one-shot function holds while it
+            // pulls its input may be needed by another call.)
+            let originals = data(&mut rng, k, size);
+            let outer = reed_solomon_simd::encode(
+                k,
+                r,
+                originals.iter().map(|o| reed_solomon_simd::encode(1, 1, [o]).expect("inner encode").remove(0)),
+            )
+            .expect("outer encode");
+            // with 1 + 1 shards the recovery shard equals the original, so the
+            // outer code words are those of `originals`
+            let want = reed_solomon_simd::encode(k, r, &originals).expect("plain encode");
+            assert!(outer == want, "nested one-shot encode differs from the plain one");
+            let restored = reed_solomon_simd::decode(
+                k,
+                r,
+                [(0usize, &originals[0])].into_iter().take(usize::from(k > r)),
+                (0..r.min(k)).map(|j| {
+                    // the j-th recovery shard, restored from itself by an inner decode of a 1 + 1 code
+                    let m = reed_solomon_simd::decode(1, 1, std::iter::empty::<(usize, &Vec<u8>)>(), [(0usize, &outer[j])]).expect("inner decode");
+                    (j, m[&0].clone())
+                }),
+            );
+            let mut h = digest_shards(12, &outer);
+            if let Ok(m) = restored {
+                let mut idx: Vec<&usize> = m.keys().collect();
+                idx.sort();
+                for i in idx {
+                    h = hash_bytes(h ^ *i as u64, &m[i]);
+                }
+            } else {
+                h ^= 0xdead;
+            }
+            h
         }
         _ => {
             // SIMD role on a CPU without the feature: portable stand-in
